@@ -7,6 +7,10 @@
     and -simulate produces deeper random ones; harness/cmd/reuse replays every history on ONE reused
     instance of each of 9 instance types and through the 4 pools of the package-level functions
     (GOMAXPROCS(1): the pool hands the same instance back).
+(b') spec/ReuseToggle.tla enumerates the option-toggle histories <e1, options A> <e2, options B> <e1, options A> on one
+    writer with the SAME value in all calls (families x entry points x option sets x value classes) and spec/ReuseRetain.tla
+    the producer/later-call histories of the Unmarshal / Recompose family (entry x target x document, user hooks included);
+    the driver's "named" families replay them; the judgement is the same TraceReuse (CallConforms / Stable).
 (c) the recorded results, the values re-inspected after the caller scribbled over its input and all
     earlier returned values re-inspected after every call are judged by TLC (spec/TraceReuse.tla) with the
     operators of Reuse: CallConforms (memo seeded from fresh instances), ScribbleConforms, RecheckConforms.
@@ -15,9 +19,13 @@ Locus = shortest failing sub-history of call kinds, found by shrinking on the re
 import concurrent.futures as cf
 import json
 import os
+import subprocess
+import threading
 
 import verif
 from verif import Infra, log
+
+_NLOCK = threading.Lock()
 
 TRACE_CFG = """SPECIFICATION TraceSpec
 CONSTANTS K = 1 MaxLen = 0 NF = 1 Leaky = {} CopiesOut = TRUE
@@ -56,7 +64,8 @@ def exec_hist(ctx, hist_path, tag, fams, pooledmax=0):
     vals, fresh, stats = {}, {}, {"histories": 0, "calls": 0, "pairs": 0}
     trace = os.path.join(d, "trace.ndjson")
     with cf.ThreadPoolExecutor(max(1, min(len(fams), verif.NCPU // 2))) as ex, open(trace, "wb") as out:
-        for name, fd in ex.map(one, fams):
+        # (the pooled families empty the pools before every history and take longest: start them first)
+        for name, fd in ex.map(one, sorted(fams, key=lambda f: (not f.get("pooled"), -len(f["kinds"])))):
             vals[name] = json.load(open(os.path.join(fd, "vals.json")))
             fresh.update(json.load(open(os.path.join(fd, "fresh.json"))))
             st = json.load(open(os.path.join(fd, "stats.json")))
@@ -91,10 +100,96 @@ def bad_items(trace, res):
 
 
 def judge(ctx, cases, fams=None, pooledmax=0, tag="j"):
+    """cases: path to a histories ndjson ({"h":[indexes]} or {"f","h":[names]}) or a list of such dicts; a dict with the key
+    "proc" is a process history ({"f","proc":[names]}: the first calls of a new process, each on a new instance)."""
+    if not isinstance(cases, str):
+        procs = [c for c in cases if "proc" in c]
+        rest = [c for c in cases if "proc" not in c]
+        recs = judge_proc(ctx, [{"f": c["f"], "h": c["proc"]} for c in procs], tag=tag + "p") if procs else []
+        return recs + (judge_hist(ctx, rest, fams, pooledmax, tag) if rest else [])
+    return judge_hist(ctx, cases, fams, pooledmax, tag)
+
+
+def canon(v):
+    return json.dumps(v, sort_keys=True, separators=(",", ":"))
+
+
+def judge_proc(ctx, procs, tag="p"):
+    """Process histories (ReuseToggle "P" lines): every history is run as the FIRST calls of a new process (reuse proc),
+    each call on a new instance.  Every call becomes a one-call history of the trace (a new instance, so nothing to
+    re-inspect) whose result TLC compares (CallConforms) with the memo of the ordinary reference process (reuse exec)."""
+    if not procs:
+        return []
+    rb = ctx.build("reuse")
+    allf = menu(ctx)
+    apis = {(f["name"], k["name"]): k["api"] for f in allf for k in f["kinds"]}
+    with _NLOCK:
+        ctx._pn = getattr(ctx, "_pn", 0) + 1
+        d = os.path.join(ctx.scratch, "proc_%s_%d" % (tag, ctx._pn))
+    os.makedirs(d, exist_ok=True)
+    names = sorted({p["f"] for p in procs})
+
+    def ref(name):
+        fd = os.path.join(d, "ref_" + name)
+        os.makedirs(fd, exist_ok=True)
+        ctx.run([rb, "exec", "-out", fd, "-fam", name], stdin=subprocess.DEVNULL, stdout=subprocess.DEVNULL, timeout=600)
+        return name, json.load(open(os.path.join(fd, "vals.json"))), json.load(open(os.path.join(fd, "fresh.json")))
+
+    def one(p):
+        r = subprocess.run([rb, "proc", "-fam", p["f"]], input=(json.dumps({"f": p["f"], "h": p["h"]}) + "\n").encode(),
+                           capture_output=True, timeout=600, env=ctx.goenv())
+        if r.returncode != 0:
+            raise Infra("reuse proc failed: " + r.stderr.decode(errors="replace")[-2000:])
+        return json.loads(r.stdout.decode())["ev"]
+
+    with cf.ThreadPoolExecutor(max(1, verif.NCPU // 2)) as ex:
+        refs = list(ex.map(ref, names))
+        outs = list(ex.map(one, procs))
+    vals, fresh, table = {}, {}, {}
+    for name, v, fr in refs:
+        vals[name] = v
+        fresh.update(fr)
+        table[name] = {canon(x): i + 1 for i, x in enumerate(v)}
+    lines, meta = [], []
+    for p, evs in zip(procs, outs):
+        if [e["k"] for e in evs] != p["h"]:
+            raise Infra("reuse proc returned other calls than asked for")
+        for j, e in enumerate(evs):
+            c = canon(e["r"])
+            if c not in table[p["f"]]:              # (the table only removes duplicates: a new value gets a new entry)
+                vals[p["f"]].append(e["r"])
+                table[p["f"]][c] = len(vals[p["f"]])
+            i = table[p["f"]][c]
+            lines.append({"f": p["f"], "ev": [{"k": e["k"], "x": "", "r": i, "h": i, "s": i, "rc": []}]})
+            meta.append((p, j))
+    trace, vp, fp = os.path.join(d, "trace.ndjson"), os.path.join(d, "vals.json"), os.path.join(d, "fresh.json")
+    verif.write_ndjson(trace, lines)
+    json.dump(vals, open(vp, "w"))
+    json.dump(fresh, open(fp, "w"))
+    res = validate(ctx, trace, vp, fp)
+    ctx.cov["evaluations"] += len(lines)
+    ctx.cov["process_histories"] = ctx.cov.get("process_histories", 0) + len(procs)
+    recs, seen = [], set()
+    for b in res["bad"]:
+        p, j = meta[b["i"] - 1]
+        k = p["h"][j]
+        # locus: the first call of the process (what a first-call-wins cache remembers) and the entry point of the deviating call
+        locus = "new-process:" + p["h"][0] + ">" + apis.get((p["f"], k), k)
+        if (p["f"], locus) in seen:
+            continue
+        seen.add((p["f"], locus))
+        recs.append({"api": p["f"], "kind": b["kind"], "locus": locus,
+                     "witness": {"instance": p["f"], "new_process_first_calls": p["h"][:j + 1], "failing_call": apis.get((p["f"], k), "?"),
+                                 "reference": "the same call as one of the reference calls of another process"},
+                     "case": {"f": p["f"], "proc": p["h"]}, "detail": {"failing_call_index": j + 1}})
+    return recs
+
+
+def judge_hist(ctx, cases, fams=None, pooledmax=0, tag="j"):
     """cases: path to a histories ndjson ({"h":[indexes]} or {"f","h":[names]}) or a list of such dicts."""
     allf = menu(ctx)
     if not isinstance(cases, str):
-        p = os.path.join(ctx.scratch, "replay_hist_%d.ndjson" % ctx._n)
+        p = os.path.join(ctx.scratch, "replay_hist_%s_%d.ndjson" % (tag, ctx._n))
         verif.write_ndjson(p, cases)
         want = {c.get("f") for c in cases}
         if None not in want and "" not in want:
@@ -134,7 +229,7 @@ def judge(ctx, cases, fams=None, pooledmax=0, tag="j"):
         if len(todo) > 40000:
             log("note: %d deviating histories of length %d, shrinking the first 40000" % (len(todo), j))
             todo = todo[:40000]
-        sp = os.path.join(ctx.scratch, "shrink_in_%d_%d.ndjson" % (ctx._n, j))
+        sp = os.path.join(ctx.scratch, "shrink_in_%s_%d_%d.ndjson" % (tag, ctx._n, j))
         verif.write_ndjson(sp, [{"f": it["f"], "h": it["h"], "j": it["j"], "p": it["p"]} for it in todo])
         with open(sp, "rb") as fi:
             p = ctx.run([rb, "shrink"], stdin=fi, timeout=3000)
@@ -151,7 +246,7 @@ def judge(ctx, cases, fams=None, pooledmax=0, tag="j"):
     uniq = {}
     for it, sh in zip(items, shrunk):
         uniq.setdefault((sh["f"], tuple(sh["h"])), []).append((it, sh))
-    hp = os.path.join(ctx.scratch, "shrunk_%d.ndjson" % ctx._n)
+    hp = os.path.join(ctx.scratch, "shrunk_%s_%d.ndjson" % (tag, ctx._n))
     keys = sorted(uniq)
     verif.write_ndjson(hp, [{"f": k[0], "h": list(k[1])} for k in keys])
     sfams = [f for f in allf if f["name"] in {k[0] for k in keys}]
@@ -182,6 +277,48 @@ def judge(ctx, cases, fams=None, pooledmax=0, tag="j"):
                          "case": {"f": f, "h": h[:j]},
                          "detail": {"failing_call_index": j, "producer_index": sh["p"] if h == list(ks) else it["p"]}})
     return recs
+
+
+NAMED_CFG = "SPECIFICATION Spec\nCONSTANT Thorough = %s\nINVARIANT Shape\nCONSTRAINT Emit\nCHECK_DEADLOCK FALSE\n"
+
+
+def named_histories(ctx, fams):
+    """Histories of the named families, enumerated by their own modules (ReuseToggle: option toggles on one writer with the
+    same value; ReuseRetain: a producer call of the Unmarshal family followed by a later call).  A kind is the tuple TLC
+    prints, joined with '|'.  The driver's menus and the kinds TLC uses must be the same sets (else exit 2)."""
+    th = "FALSE" if ctx.quick else "TRUE"
+    with cf.ThreadPoolExecutor(2) as ex:
+        jobs = [ex.submit(ctx.tlc, m, NAMED_CFG % th, workers=1, timeout=1800, heap="6g") for m in ("ReuseToggle", "ReuseRetain")]
+        runs = [j.result() for j in jobs]
+    hs = []
+    procs = [{"f": x["f"], "h": ["|".join(k) for k in x["h"]]} for x in runs[0].printed("P")]
+    procs = [json.loads(t) for t in sorted({json.dumps(p) for p in procs})]
+    if not procs and not (runs[0].error or runs[0].violated):
+        raise Infra("no process histories emitted")
+    for r, tag in zip(runs, ("T", "R")):
+        if r.error or r.violated:
+            raise Infra("named history generation failed:\n" + r.out[-2000:])
+        seen = set()
+        for x in r.printed(tag):
+            h = (x["f"], tuple("|".join(k) for k in x["h"]))
+            if h not in seen:                     # (TLC prints once per GENERATED state)
+                seen.add(h)
+                hs.append({"f": h[0], "h": list(h[1])})
+    named = {f["name"]: {k["name"] for k in f["kinds"]} for f in fams if f.get("named")}
+    used = {}
+    for h in hs:
+        used.setdefault(h["f"], set()).update(h["h"])
+    if set(used) != set(named):
+        raise Infra("named families differ: TLC %s, driver %s" % (sorted(used), sorted(named)))
+    for f in named:
+        if used[f] != named[f]:
+            raise Infra("family %s: kinds only in the TLA+ module %s, only in the driver %s"
+                        % (f, sorted(used[f] - named[f])[:5], sorted(named[f] - used[f])[:5]))
+    for p in procs:
+        if not set(p["h"]) <= named.get(p["f"], set()):
+            raise Infra("process history uses kinds the driver does not have: %s" % sorted(set(p["h"]) - named.get(p["f"], set()))[:5])
+    ctx.cov["named_histories"] = {f: sum(1 for h in hs if h["f"] == f) for f in sorted(named)}
+    return hs, procs
 
 
 def option_obligations(ctx, fams):
@@ -236,37 +373,64 @@ def sim_histories(ctx, K, n, depth):
 
 
 def main(ctx):
-    ctx.design("Reuse", "Reuse_design3.cfg" if ctx.quick else "Reuse_design4.cfg", workers=4, coverage=not ctx.quick)
-    ctx.design("Reuse", "Reuse_leaky.cfg", expect_violation="FunctionOfArgs", workers=1, count=False)
-    ctx.design("Reuse", "Reuse_nocopy.cfg", expect_violation="ReturnedStable", workers=1, count=False)
-    ctx.design("Reuse", "Reuse_exceptions.cfg", expect_violation="NeverOverwritten", workers=1, count=False)
-    fams = menu(ctx)
+    allfams = menu(ctx)                                        # (builds the driver once, before the threads start)
+    fams = [f for f in allfams if not f.get("named")]          # generic menus: index histories
+    nfams = [f for f in allfams if f.get("named")]             # histories enumerated by ReuseToggle / ReuseRetain
     K = max(len(f["kinds"]) for f in fams)
-    option_obligations(ctx, fams)
+    # the design checks and every generator are independent TLC runs: run them side by side
+    with cf.ThreadPoolExecutor(8) as ex:
+        jobs = [
+            ex.submit(ctx.design, "Reuse", "Reuse_design3.cfg" if ctx.quick else "Reuse_design4.cfg", workers=4, coverage=not ctx.quick),
+            ex.submit(ctx.design, "Reuse", "Reuse_leaky.cfg", expect_violation="FunctionOfArgs", workers=1, count=False),
+            ex.submit(ctx.design, "Reuse", "Reuse_nocopy.cfg", expect_violation="ReturnedStable", workers=1, count=False),
+            ex.submit(ctx.design, "Reuse", "Reuse_exceptions.cfg", expect_violation="NeverOverwritten", workers=1, count=False),
+            ex.submit(option_obligations, ctx, fams),
+        ]
+        jn = ex.submit(named_histories, ctx, allfams)
+        if ctx.quick:
+            # every family: all PAIRS over its whole menu; instance types: all TRIPLES over the first 16 kinds of the menu
+            # (the menus list the state-touching kinds first); everything: deep simulated histories over the whole menus
+            gens = [ex.submit(gen_histories, ctx, K, 2), ex.submit(gen_histories, ctx, 16, 3, "inst"), ex.submit(sim_histories, ctx, K, 400, 10)]
+        else:
+            # all pairs over the whole menus, all triples over the first 36 kinds, all quadruples over the first 16, deep simulated histories
+            gens = [ex.submit(gen_histories, ctx, K, 2), ex.submit(gen_histories, ctx, min(K, 36), 3), ex.submit(gen_histories, ctx, 16, 4),
+                    ex.submit(sim_histories, ctx, K, 3000, 12)]
+        for j in jobs:
+            j.result()
+        nhs, procs = jn.result()
+        hs = [h for g in gens for h in g.result()]
+    nhp = os.path.join(ctx.scratch, "named_hist.ndjson")
+    verif.write_ndjson(nhp, nhs)
     hp = os.path.join(ctx.scratch, "hist.ndjson")
-    if ctx.quick:
-        # every family: all PAIRS over its whole menu; instance types: all TRIPLES over the first 16 kinds of the menu
-        # (the menus list the state-touching kinds first); everything: deep simulated histories over the whole menus
-        hs = gen_histories(ctx, K, 2) + gen_histories(ctx, 16, 3, "inst") + sim_histories(ctx, K, 400, 10)
-    else:
-        # all pairs over the whole menus, all triples over the first 36 kinds, all quadruples over the first 16, deep simulated histories
-        hs = gen_histories(ctx, K, 2) + gen_histories(ctx, min(K, 36), 3) + gen_histories(ctx, 16, 4) + sim_histories(ctx, K, 3000, 12)
     verif.write_ndjson(hp, hs)
-    recs = judge(ctx, hp, fams, tag="m")
+    with cf.ThreadPoolExecutor(3) as ex:
+        jm = ex.submit(judge, ctx, hp, fams, 0, "m")
+        jn = ex.submit(judge, ctx, nhp, nfams, 0, "n")
+        jp = ex.submit(judge_proc, ctx, procs, "p")
+        recs = jm.result() + jn.result() + jp.result()
     for r in recs:
         ctx.add(r["api"], r["kind"], r["locus"], r["witness"], case=r["case"], detail=r.get("detail"))
     ctx.cov["distinct_nontrivial"] = ctx.cov.get("kind_pairs_exercised", 0)
-    ctx.cov["families"] = {f["name"]: len(f["kinds"]) for f in fams}
-    ctx.cov["rule"] = ("TLC-enumerated call histories over each family's menu (13 families: 9 instance types, 4 pools under "
-                       "GOMAXPROCS(1)): %s plus TLC -simulate histories of depth %d over the whole menus; each replayed on one "
+    ctx.cov["families"] = {f["name"]: len(f["kinds"]) for f in allfams}
+    ctx.cov["rule"] = ("TLC-enumerated call histories over each family's menu (17 generic families: 9 instance types, 4 pools under "
+                       "GOMAXPROCS(1), 4 owned-instance families): %s plus TLC -simulate histories of depth %d over the whole menus; each replayed on one "
                        "reused instance per family; every call result (value, error class, line:column) compared by TLC with the "
                        "fresh-instance result, every returned value re-inspected after input scribbling and after every later "
-                       "call. distinct_nontrivial = distinct (family, kind -> next kind) transitions executed."
+                       "call. Named families (histories enumerated by their own TLA+ modules): ReuseToggle - on one oj / sen / pretty "
+                       "Writer <e1, option set A> <e2, option set B> <e1, A> with the SAME value in all calls, over every writer entry "
+                       "point (instance methods, package-level functions given the *Writer or *Options), ~30 option sets (every ojg.Options "
+                       "field a writer reads) and 6 value classes, plus process histories (the first calls of a NEW process, judged against "
+                       "the references of another process); ReuseRetain - a producer call of the Unmarshal / Recompose family (8 entry "
+                       "points x 10 targets incl. AttrSetter / RecomposeFunc / RecomposeAnyFunc hooks x 3 documents) followed by a chain of "
+                       "later calls, everything retained re-inspected after every later call (Stable). "
+                       "distinct_nontrivial = distinct (family, kind -> next kind) transitions executed."
                        % ("all pairs over the whole menus, all triples over the first 16 kinds (instance types)," if ctx.quick else
                           "all pairs over the whole menus, all triples over the first 36 kinds, all quadruples over the first 16 kinds,", 10 if ctx.quick else 12))
     for f in fams[:3]:
         ctx.sample({"family": f["name"], "history": [k["name"] for k in f["kinds"][:3]]})
     ctx.assumptions += [
+        "process histories: a result is compared with the result of the same call in ANOTHER process of the same binary; pointer "
+        "addresses printed by the NoReflect fallback (fmt %v) are blanked by the projection",
         "fresh reference = the same call on a newly constructed instance (for the pooled functions: on an emptied "
         "sync.Pool, two runtime.GC() calls); a kind whose fresh result is not deterministic aborts the run (exit 2)",
         "pool reuse relies on sync.Pool returning the instance just Put under GOMAXPROCS(1) (measured 1000/1000)",
